@@ -226,13 +226,21 @@ class FV:
             rets = gv.returns()
             if not rets:
                 return None
-            keys = {key(t) for n, t in rets}
-            if len(keys) != 1:
-                return None
             mapping = self._bind_terms(g, resolved_call)
             if mapping is None:
                 return None
-            return self._substitute(rets[0][1], mapping, g.short)
+            uniq = []
+            for n, t in rets:
+                if key(t) not in {key(u) for u in uniq}:
+                    uniq.append(t)
+            if len(uniq) == 1:
+                return self._substitute(uniq[0], mapping, g.short)
+            if len(uniq) > 4:
+                return None
+            # a helper with several different return values: the set of alternatives
+            from .defuse import sym as _sym
+
+            return _sym("alt", *[self._substitute(t, mapping, g.short) for t in uniq])
         finally:
             reg._inline_depth -= 1
 
